@@ -11,7 +11,7 @@ a directory snapshot (object files / db rows).  After an error return both must 
 Part 2 (fault_sequences): for every FS operation k of a call on token objects, operation k fails (EIO / ENOSPC); if the
 call reports an error, the in-memory state after disarming the fault and the persisted state seen by a NEW process
 must equal the pre-call snapshot.  ("CKR_OK but not persisted" is C05's.)"""
-import sys, os, random, shutil
+import sys, os, random, shutil, time
 sys.path.insert(0, os.path.join(os.path.dirname(os.path.abspath(__file__)), '..', 'vlib'))
 from harness import main, Part, pmap, SAN_ENV
 from p11client import Exec, Died, Hang, mkconf
@@ -23,13 +23,22 @@ RO_FLAGS = 4            # CKF_SERIAL_SESSION only
 EIO, ENOSPC = 5, 28
 
 def new_exec(job, d, backend, reuse=False):
+    """start an executor and C_Initialize it.  The executor binary is shared with other checks and may be re-linked by a
+    concurrent build at this very moment: a start-up failure is retried a few times (harness robustness, not a verdict)"""
     p = job['paths'][job['cfg']]; conf = os.path.join(d, 'softhsm2.conf')
     if not (reuse and os.path.exists(conf)): conf = mkconf(d, backend)
-    n = len([f for f in os.listdir(d) if f.startswith('stderr')])
-    return Exec(p['exe'], p['lib'], conf, job['ck'], env=dict(SAN_ENV), stderr=f'{d}/stderr{n}.log', trace=f'{d}/trace{n}.jsonl')
+    for attempt in range(6):
+        n = len([f for f in os.listdir(d) if f.startswith('stderr')]); x = None
+        try:
+            x = Exec(p['exe'], p['lib'], conf, job['ck'], env=dict(SAN_ENV), stderr=f'{d}/stderr{n}.log', trace=f'{d}/trace{n}.jsonl')
+            r = x.call('C_Initialize', locking='os'); assert r['rv'] == 0, r
+            return x
+        except (OSError, Died) as e:
+            if x is not None: x.kill()
+            if attempt == 5 or (isinstance(e, Died) and e.rc not in (2, 126, 127, -9, -15)): raise
+            time.sleep(1 + attempt)
 
 def init_token(x):
-    assert x.call('C_Initialize', locking='os')['rv'] == 0
     sl = x.call('C_GetSlotList', count=8)['slots'][-1]
     assert x.call('C_InitToken', slot=sl, pin=SO_PIN.hex(), label=b'c09'.hex())['rv'] == 0
     s = x.call('C_OpenSession', slot=sl)['h']
@@ -478,7 +487,7 @@ class Faults:
         x.call('C_Finalize'); x.close(); shutil.copytree(s.root, s.gold)
     def restore(s): shutil.rmtree(s.root, ignore_errors=True); shutil.copytree(s.gold, s.root)
     def start(s):
-        x = new_exec(s.job, s.d, s.be, reuse=True); assert x.call('C_Initialize', locking='os')['rv'] == 0
+        x = new_exec(s.job, s.d, s.be, reuse=True)
         sl = x.call('C_GetSlotList', count=8)['slots'][0]
         a = x.call('C_OpenSession', slot=sl)['h']; b = x.call('C_OpenSession', slot=sl, flags=RO_FLAGS)['h']
         assert x.call('C_Login', s=a, user=1, pin=USER_PIN.hex())['rv'] == 0
@@ -580,7 +589,7 @@ def run(ctx):
                 'objects existed before (fault cases: the fault was really injected)')
     ctx.need('asan'); base = dict(paths=ctx.paths, hdr=ctx.paths['asan']['hdr'], cfg='asan', scratch=ctx.scratch)
     jobs = []
-    per = 60; nfile = ctx.q(22, 330); ndb = ctx.q(6, 170)
+    per = 60; nfile = ctx.q(36, 330); ndb = ctx.q(10, 170)
     for i in range(nfile + ndb):
         jobs.append(dict(base, what='scenario', seed=ctx.seed * 1000003 + i, backend='file' if i < nfile else 'db', ncalls=per))
     # fault enumeration: every FS operation of every call kind (file; db in thorough), EIO (and ENOSPC in thorough)
@@ -589,7 +598,7 @@ def run(ctx):
         for errno in ctx.q((EIO,), (EIO, ENOSPC)):
             for call in FAULT_CALLS:
                 big = call in ('C_CreateObject', 'C_GenerateKey', 'C_UnwrapKey')
-                privs = (True, False) if (not ctx.quick or not big) else ((ctx.seed + FAULT_CALLS.index(call)) % 2 == 0,)
+                privs = (True, False)
                 for priv in privs:
                     nch = (4 if big else 1) * (3 if be == 'db' else 1)
                     for c in range(nch): fj.append(dict(base, what='faults', call=call, backend=be, priv=priv, errno=errno, chunk=c, nchunks=nch))
